@@ -118,9 +118,58 @@ def verifyNrOp (inp : Json) : Except String Json := do
   | .obj kvs => pure (Json.obj (kvs.insert "nr_checks" (Json.arr checks.toArray)))
   | j => pure j
 
+/-- `Prover::process_credential_signature` with revocation key, registry and witness: the pairing
+    side (`_test_witness_signature`) in exponent form.  The credential under test and the donor
+    ("other session") are recomputed from scalars; `alter` lists field replacements. -/
+def holderNrCheckOp (inp : Json) : Except String Json := do
+  let j ← inp.getObjVal? "ctx"
+  let key ← parseRevKeyExp (← j.getObjVal? "key")
+  let γ ← hexField j "gamma"
+  let L ← getNat j "L"
+  let valid ← getNatList j "valid"
+  let accU := valid.foldl (fun acc v => fr.add acc (fr.pow γ (L + 1 - v))) 0
+  let acc := fr.mul key.gDash accU
+  let z := fr.mul (fr.mul key.g key.gDash) (fr.pow γ (L + 1))
+  let x ← hexField j "x"
+  let sk ← hexField j "sk"
+  let mk (cj : Json) : Except String (Cred Nat × Nat) := do
+    let i ← getNat cj "i"
+    let wvalid ← getNatList cj "witness_valid"
+    let omegaU := (wvalid.filter (· != i)).foldl (fun a v => fr.add a (fr.pow γ (L + 1 - v + i))) 0
+    let cr := issueCred fr frInv key x sk γ i (← hexField cj "m2") 0 (← hexField cj "vr2") (← hexField cj "c")
+                (fr.mul key.gDash omegaU)
+    pure (cr, fr.mul key.g (fr.pow γ i))
+  let (cr0, wg0) ← mk (← j.getObjVal? "cred")
+  let (ocr, owg) ← mk (← j.getObjVal? "other")
+  let alts ← getArr inp "alter"
+  let mut cr := cr0
+  let mut wg := wg0
+  for a in alts do
+    let f ← getStr a "field"
+    let m ← getStr a "mode"
+    match f, m with
+    | "gI", "other" => cr := { cr with gI := ocr.gI }
+    | "sigma", "other" => cr := { cr with sigma := ocr.sigma }
+    | "sigmaI", "other" => cr := { cr with sigmaI := ocr.sigmaI }
+    | "uI", "other" => cr := { cr with uI := ocr.uI }
+    | "wgI", "other" => wg := owg
+    | "c", "other" => cr := { cr with c := ocr.c }
+    | "m2", "other" => cr := { cr with m2 := ocr.m2 }
+    | "vr2", "other" => cr := { cr with vr2 := ocr.vr2 }
+    | "omega", "other" => cr := { cr with omega := ocr.omega }
+    | "c", "plus1" => cr := { cr with c := fr.add cr.c 1 }
+    | "m2", "plus1" => cr := { cr with m2 := fr.add cr.m2 1 }
+    | "vr2", "plus1" => cr := { cr with vr2 := fr.add cr.vr2 1 }
+    | "i", "plus1" => pure ()   -- the index takes part in no equation
+    | _, _ => throw s!"unknown alteration {f}/{m}"
+  let eqs := (witnessSigEqs fr key acc z wg cr).map fun p => decide (p.1 = p.2)
+  pure (Json.mkObj [("accept", Json.bool (testWitnessSignature fr key acc z wg cr)),
+                    ("eqs", Json.arr (eqs.map Json.bool).toArray)])
+
 def dispatchNonRevoc (op : String) (inp : Json) : Option (Except String Json) :=
   match op with
   | "verify" => some (verifyNrOp inp)
+  | "holder_nr_check" => some (holderNrCheckOp inp)
   | _ => none
 
 end Drv
